@@ -189,6 +189,87 @@ def _order(repo, rep):
               "body.startswith(b'<?xml')" in t, "R17.1", xe.qualname,
               "the declared encoding is read from a document that starts "
               "with <?xml only", construct="xml-encoding", where=L.where(xe))
+    # the XML declaration grammar: EncodingDecl ::= S 'encoding' Eq
+    # ('"' EncName '"' | "'" EncName "'"),  Eq ::= S? '=' S?
+    er = repo.const("chameleon.utils", "RE_ENCODING")
+    site_re = U + "RE_ENCODING"
+    ok_eq = ok_q = ok_name = False
+    if hasattr(er, "pattern"):
+        from .. import rx
+        C = rx.C
+        pat = er.pattern if isinstance(er.pattern, str) else \
+            er.pattern.decode("latin-1")
+        tree = list(rx.parse(pat, 0))
+        # flatten literals to find the '=' and what surrounds it
+        kinds = []
+        for op, av in tree:
+            if op is C.LITERAL:
+                kinds.append(("lit", chr(av)))
+            elif op in (C.MAX_REPEAT, C.MIN_REPEAT):
+                lo, hi, body = av
+                b = list(body)
+                cat = len(b) == 1 and b[0][0] is C.IN and any(
+                    o is C.CATEGORY and "SPACE" in str(a) for o, a in b[0][1])
+                kinds.append(("space*" if cat and lo == 0 else
+                              "space+" if cat else "rep", None))
+            elif op is C.SUBPATTERN:
+                kinds.append(("group", av))
+            elif op is C.IN:
+                kinds.append(("in", rx.in_set(av)))
+            elif op is C.BRANCH:
+                kinds.append(("branch", av))
+            else:
+                kinds.append((str(op), av))
+        eq = [i for i, k in enumerate(kinds) if k == ("lit", "=")]
+        if len(eq) == 1:
+            i = eq[0]
+            ok_eq = i > 0 and i + 1 < len(kinds) and \
+                kinds[i - 1][0] == "space*" and kinds[i + 1][0] == "space*"
+        quotes = set()
+
+        def qs(items):
+            for op, av in items:
+                if op is C.LITERAL and chr(av) in "\"'":
+                    quotes.add(chr(av))
+                elif op is C.IN:
+                    cs = rx.in_set(av)
+                    for ch in "\"'":
+                        if ch in cs and not rx.CharSet.of("a") <= cs \
+                                if False else ch in cs and "a" not in cs:
+                            quotes.add(ch)
+                elif op is C.BRANCH:
+                    for alt in av[1]:
+                        qs(alt)
+                elif op is C.SUBPATTERN:
+                    if rx.group_tree(rx.parse(pat, 0))[1].get(
+                            "encoding") != av[0]:
+                        qs(av[3])
+        qs(tree)
+        ok_q = quotes == {'"', "'"}
+        parents, names = rx.group_tree(rx.parse(pat, 0))
+        gid = names.get("encoding")
+        for op, av in tree:
+            if op is C.SUBPATTERN and av[0] == gid:
+                body = list(av[3])
+                if len(body) == 1 and body[0][0] in (C.MAX_REPEAT,
+                                                     C.MIN_REPEAT):
+                    inner = list(body[0][1][2])
+                    if len(inner) == 1 and inner[0][0] is C.IN:
+                        cs = rx.in_set(inner[0][1])
+                        need = rx.CharSet([(48, 57), (65, 90), (97, 122),
+                                           (45, 45), (95, 95)])
+                        ok_name = cs.issuperset(need) and body[0][1][0] >= 1
+    rep.check(ok_eq, "R17.1", site_re, "the declaration pattern allows "
+              "optional white space on both sides of '=' (XML: Eq ::= S? "
+              "'=' S?)", construct="decl-eq-space",
+              detail=str(getattr(er, "pattern", er))[:120])
+    rep.check(ok_q, "R17.1", site_re, "the encoding name may be quoted with "
+              "either quote character", construct="decl-quotes")
+    rep.check(ok_name, "R17.1", site_re, "the encoding name is a non-empty "
+              "run of letters, digits, '-' and '_'", construct="decl-name")
+    rep.check(bool(getattr(er, "flags", 0) & 2), "R17.1", site_re,
+              "the declaration is matched case-insensitively",
+              construct="decl-ignorecase")
     dv = repo.cls("chameleon.template.BaseTemplate").attrs.get(
         "default_encoding")
     rep.check(isinstance(dv, ast.Constant) and dv.value == "utf-8", "R17.1",
@@ -233,12 +314,38 @@ def _mode(repo, rep):
               "R17.3", pt.qualname, "everything else is HTML",
               construct="default-html")
     p = repo.func("chameleon.zpt.template.PageTemplate.parse")
+    paths = P.enum_paths(p.node.body)
+    okn = bool(paths)
+    okb = True
+    for pa in paths:
+        conds = {src(e[1]): e[2] for e in pa if e[0] == "cond"}
+        html = conds.get("self.content_type != 'text/xml'")
+        if html is None:
+            html = not conds.get("self.content_type == 'text/xml'", False) \
+                if "self.content_type == 'text/xml'" in conds else None
+        rew = [e for e in pa if e[0] == "assign" and e[1] == "body"
+               and ".replace('\\r\\n', '\\n')" in src(e[2])]
+        if html is None:
+            okn = False
+        elif bool(rew) != bool(html):
+            okn = False
+        dflt = [e for e in pa if e[0] == "assign"
+                and e[1] == "boolean_attributes"
+                and "BOOLEAN_HTML_ATTRIBUTES" in src(e[2])]
+        if dflt and not html:
+            okb = False
+    rep.check(okn, "R17.3", p.qualname, "on every path: newlines are "
+              "rewritten iff the document is not XML (independent of any "
+              "other option)", construct="newline-iff-html",
+              where=L.where(p))
+    rep.check(okb, "R17.3", p.qualname, "on every path: the HTML boolean "
+              "attribute defaults are applied only outside XML mode",
+              construct="bools-only-html", where=L.where(p))
     guards = [n for n in ast.walk(p.node) if isinstance(n, ast.If)
               and src(n.test) == "self.content_type != 'text/xml'"]
     ok = len(guards) == 1
     inside = " ".join(src(s) for s in guards[0].body) if ok else ""
-    rep.check(ok and "BOOLEAN_HTML_ATTRIBUTES" in inside and
-              ".replace('\\r\\n', '\\n')" in inside, "R17.3", p.qualname,
+    rep.check(okn and okb, "R17.3", p.qualname,
               "implicit boolean attributes and newline rewriting are HTML-"
               "only (guarded by content_type != 'text/xml')",
               construct="xml-guards", where=L.where(p))
